@@ -99,6 +99,52 @@ static void m_remove(int i)
 
 static char pbuf[4 * 262 + 16];
 
+
+/* ---------------------------------------------------------- path objects
+ * One long-lived mpt::path object is re-used for every path the history
+ * needs: assigned from temporaries, from named objects, from copies, from
+ * itself, re-set through path::set(), sometimes after it was partly walked.
+ * What it denotes afterwards is the split of the CURRENT text: checked by
+ * walking a copy before the object is handed to the store. */
+static mpt::path work;
+static vf_rng *prng;
+static char tbuf[2][sizeof(pbuf)];
+static int tcur;
+
+static mpt::path &use_path(const char *text, int sep, const struct entry *x)
+{
+	vf_rng *r = prng;
+	/* the object still denotes the previous text (other buffer): consume a bit of it */
+	if (vf_chance(r, 1, 2)) {
+		int steps = 1 + (int) vf_below(r, 2);
+		while (steps-- && !work.empty()) work.next();
+		vf_count("state:path-reused-after-walk", 1);
+	}
+	char *t = tbuf[tcur ^= 1];
+	memcpy(t, text, strlen(text) + 1);
+	int mode = (int) vf_below(r, 5);
+	vf_at("path::operator=");
+	switch (mode) {
+	case 0: work = mpt::path(t, sep, 0); vf_count("path::operator=(temporary)", 1); break;
+	case 1: { mpt::path other(t, sep, 0); work = other; vf_count("path::operator=(object)", 1); break; }
+	case 2: { work = mpt::path(t, sep, 0); mpt::path &self = work; work = self; vf_count("path::operator=(self)", 1); break; }
+	case 3: { mpt::path a(t, sep, 0); mpt::path c(a); work = c; vf_count("path::path(copy)", 1); break; }
+	default: work.set(t, -1, sep, 0); vf_count("path::set", 1); break;
+	}
+	/* walk a copy: components of the current text */
+	mpt::path w(work);
+	for (int k = 0; k < x->n; k++) {
+		const char *start = w.value().begin();
+		vf_at("mpt_path_next");
+		int l = mpt_path_next(&w);
+		VF_CHECK(l >= 0 && (size_t) l == namelen[x->e[k]] && !memcmp(start, names[x->e[k]], (size_t) l), "model:path-object:component",
+		         "re-used path object (mode %d) for '%s': component %d has length %d, expected %zu", mode, show(x), k, l, namelen[x->e[k]]);
+	}
+	VF_CHECK(w.empty(), "model:path-object:remaining", "re-used path object for '%s': data left after %d components", show(x), x->n);
+	vf_count("monitor:path-object-walks", 1);
+	return work;
+}
+
 static int exists_cb(void *, mpt::convertable *, const mpt::collection *) { return 0; }
 
 static void audit(const char *after, mpt::config::root &root)
@@ -107,7 +153,7 @@ static void audit(const char *after, mpt::config::root &root)
 		const struct entry *x = &U[i];
 		int sep = seps[i % 3];
 		render(pbuf, x, sep);
-		mpt::path p(pbuf, sep, 0);
+		mpt::path &p = use_path(pbuf, sep, x);
 		const char *got = 0;
 		/* value through the generic getter (string form) */
 		vf_at("config::get");
@@ -165,6 +211,7 @@ static void history(vf_rng *r)
 	int sets = 0, removes = 0, overw = 0, i;
 	char val[MAXVAL];
 	mpt::config::root root;
+	prng = r;
 
 	nnames = 5 + (int) vf_below(r, 4);
 	for (i = 0; i < nnames; i++) {
@@ -224,7 +271,7 @@ static void history(vf_rng *r)
 		else if (k < 50) {
 			/* assign through the interface with a value object */
 			size_t vl = gen_value(r, val);
-			mpt::path p(pbuf, sep, 0);
+			mpt::path &p = use_path(pbuf, sep, x);
 			mpt::value v;
 			const char *vp = val;
 			v = vp;
@@ -267,7 +314,7 @@ static void history(vf_rng *r)
 			removes++;
 		}
 		else if (k < 85) {
-			mpt::path p(pbuf, sep, 0);
+			mpt::path &p = use_path(pbuf, sep, x);
 			snprintf(what, sizeof(what), "remove('%s')%s", show(x), x->exists ? "" : " [absent]");
 			vf_log("%s", what);
 			vf_at("config::root::remove");
@@ -291,7 +338,7 @@ static void history(vf_rng *r)
 			/* assignment the store refuses: value without type, or with a type id nobody registered.
 			 * Whatever the path (present, absent, absent with absent intermediate elements):
 			 * the map must be exactly as before. */
-			mpt::path p(pbuf, sep, 0);
+			mpt::path &p = use_path(pbuf, sep, x);
 			mpt::value v;
 			static const int dummy = 0;
 			int untyped = vf_chance(r, 1, 2);
@@ -316,6 +363,44 @@ static void history(vf_rng *r)
 				root.remove(&p);
 				m_remove(t);
 			}
+		}
+		else if (k < 98) {
+			/* the process-wide store copies the path as plain struct: assign through the re-used
+			 * object, read back through a fresh one, take the top-level element out again */
+			size_t vl = vf_below(r, 10);
+			for (size_t q = 0; q < vl; q++) val[q] = (char) ('a' + vf_below(r, 26));
+			val[vl] = 0;
+			const char *vp = val, *got = 0;
+			mpt::value v;
+			v = vp;
+			mpt::metatype *g = mpt::config::global();
+			mpt::config *cfg = 0;
+			VF_CHECK(g && g->convert(mpt::TypeConfigPtr, &cfg) >= 0 && cfg, "model:global:no-config", "config::global() has no config interface");
+			snprintf(what, sizeof(what), "global round trip '%s'", show(x));
+			vf_log("%s", what);
+			vf_count("config::global:roundtrip", 1);
+			vf_at("config::assign");
+			int rc = cfg->assign(&use_path(pbuf, sep, x), &v);
+			VF_CHECK(rc >= 0, "model:global:assign-refused", "%s: assign returned %d", what, rc);
+			{
+				mpt::path fresh(pbuf, sep, 0);
+				rc = mpt_config_getp(cfg, &fresh, 's', &got);
+				VF_CHECK(rc >= 0 && got && !strcmp(got, val), "model:global:value-missing", "%s: fresh path query returned %d '%s', assigned '%s' through the re-used path object",
+				         what, rc, got ? got : "(null)", val);
+			}
+			rc = mpt_config_getp(cfg, &use_path(pbuf, sep, x), 's', &got);
+			VF_CHECK(rc >= 0 && got && !strcmp(got, val), "model:global:value-missing", "%s: query through the re-used path object returned %d", what, rc);
+			/* remove the top-level element of that path */
+			struct entry top = *x;
+			top.n = 1;
+			render(pbuf, &top, sep);
+			rc = cfg->remove(&use_path(pbuf, sep, &top));
+			VF_CHECK(rc >= 0, "model:global:remove-refused", "%s: remove of the top element returned %d", what, rc);
+			{
+				mpt::path fresh(pbuf, sep, 0);
+				VF_CHECK(mpt_config_getp(cfg, &fresh, 0, 0) < 0, "model:global:phantom-node", "%s: top element still present after remove", what);
+			}
+			render(pbuf, x, sep);
 		}
 		else {
 			snprintf(what, sizeof(what), "query only");
